@@ -368,6 +368,9 @@ impl Uci {
                     crate::engine::util::sync::verif_delay("go_after_latch");
                 });
 
+                #[cfg(jgilchrist_tcheran_verif)]
+                crate::engine::util::sync::verif_delay("go_after_spawn");
+
                 if self.block_on_threads {
                     join_handle.join().unwrap();
                 }
